@@ -167,6 +167,8 @@ struct Knobs {
     verify_len: bool,
     verify_index: bool,
     p_sync: u64,
+    /// 0: shard j on node j mod S (strided); w > 0: blocks of w consecutive shards per node
+    placement_block: usize,
 }
 
 struct World {
@@ -215,6 +217,7 @@ pub fn run_store(ch: &mut Chooser, ctx: &mut Ctx) {
         verify_len: !ch.chance("knob.buggify_len", 1, 2),
         verify_index: !ch.chance("knob.buggify_index", 1, 2),
         p_sync: pick(ch, "knob.sync", &[100, 90, 50]),
+        placement_block: pick(ch, "knob.placement", &[0, 0, 8, 16, 32, 64]) as usize,
     };
     let n_nodes = 3 + ch.pick_usize("world.nodes", 10);
     let n_writers = 1 + ch.pick_usize("world.writers", 3);
@@ -617,7 +620,8 @@ fn do_put(ch: &mut Chooser, ctx: &mut Ctx, w: &mut World, s: usize) -> bool {
     let n = w.nodes.len();
     for j in 0..k + r {
         let (is_rec, idx) = if j < k { (false, j) } else { (true, j - k) };
-        let node = j % n;
+        // originals and recovery shards are placed separately so that blocks are aligned per kind
+        let node = if w.knobs.placement_block == 0 { j % n } else { (idx / w.knobs.placement_block + usize::from(is_rec)) % n };
         if w.roll(w.knobs.p_loss) {
             ctx.count("fault.F1.message_lost");
             continue;
